@@ -566,6 +566,14 @@ static void run_case(const std::string& id, bool newxta, std::vector<Cmd>& cmds)
                 }
             } else if (c.op == "TRACE") {
                 // callbacks with the heights of the three builder stacks before and after (C01 / C16 effect-table tie)
+                if (c.arg == "prop") {
+                    // queries through the property builder (TigaPropertyBuilder is final: its base class is traced)
+                    UTAP::TracePropertyBuilder pb(*doc);
+                    int r = parseProperty(c.data.c_str(), &pb);
+                    printf("ret %d\n", r);
+                    fflush(stdout);
+                    continue;
+                }
                 UTAP::TraceBuilder b(*doc);
                 int r = 0;
                 if (c.arg == "xml") r = parse_XML_buffer(c.data.c_str(), &b, newxta);
